@@ -9,7 +9,7 @@
    a run and puts the counts into the evidence (coverage.model_branches); classes of [all_classes]
    that no case reached are listed as coverage.model_branches_unhit.  Nothing here is judged. *)
 From SC Require Import Base.Prelude Router.Registry Router.Pump Router.Route Router.RouterGet Router.RouterCb
-  Router.RegistryW Router.RouteW Router.NameDefault Router.C12Judge.
+  Router.RegistryW Router.RouterCbW Router.RouteW Router.NameDefault Router.C12Judge.
 Open Scope string_scope.
 Local Infix "+++" := (@List.app _) (at level 60, right associativity).
 
@@ -119,6 +119,41 @@ Fixpoint cbranches (g : cfg) (ths : list tkind) (sched : list nat) (G : cgstate)
        end) :: cbranches g ths r (cgstep g ths G i)
   end.
 
+(* ---- RouterCbW.v (per-call outcomes under concurrency) ---- *)
+Definition wcbranch (o : wopts) (k : wkind) (p : cpc) (s : state) : string :=
+  match p, k with
+  | CDone _, _ => "stutter"
+  | CCb ch _, _ => if cauto ch then "callback:auto" else if Z.eqb (cnew ch) nil_client then "callback:remove" else "callback:add"
+  | CStart, WTAdd n _ => match find n (sreg s) with Some _ => "add:replace" | None => "add:new" end
+  | CStart, WTRemove n => match find n (sreg s) with Some _ => "remove:present" | None => "remove:absent" end
+  | CStart, WTGet n _ _ => match find n (sreg s) with Some _ => "get:read-hit" | None => "get:read-miss" end
+  | CMissed, WTGet n fbo fao =>
+      match fst (invoke_w (w_fb o) fbo) with
+      | Some _ => "get:fallback"
+      | None =>
+          (if w_fb o then "get:fallback=" ++ fout_class fbo ++ "," else "get:no-fallback,") ++
+          (if w_fac o then "factory=" ++ fout_class fao else "no-factory") ++
+          (* the registry at the moment THIS caller's factory answered *)
+          match fst (invoke_w (w_fac o) fao), find n (sreg s) with
+          | None, Some _ => ":notfound-beside-committed"
+          | None, None => ":notfound"
+          | Some _, _ => ""
+          end
+      end
+  | CMade _, WTGet n _ _ => match find n (sreg s) with Some _ => "get:insert-taken" | None => "get:insert" end
+  | _, _ => "stutter"
+  end.
+
+Fixpoint wcbranches (o : wopts) (ths : list wkind) (sched : list nat) (G : cgstate) : list string :=
+  match sched with
+  | [] => []
+  | i :: r =>
+      (match nth_error ths i, nth_error (cpcs G) i with
+       | Some k, Some p => "cw:" ++ wcbranch o k p (cst G)
+       | _, _ => "cw:stutter"
+       end) :: wcbranches o ths r (cgstepW o ths G i)
+  end.
+
 (* ---- NameDefault.v ---- *)
 Definition shape_class (r : request) : string :=
   match shape r with
@@ -141,6 +176,7 @@ Definition case_branches (c : c12case) : list string :=
       (if list_eqb change_eqb (ccbs G) (slog (cst G)) then "cb:order:commit-order" else "cb:order:inverted")
       :: cbranches g ths sched (cginit s0 ths)
   | KRegW o ops _ _ => wbranches o (init 1) ops
+  | KSchedW o ths sched _ _ _ => wcbranches o ths sched (cginitW (init 1) ths)
   | KRouteW o fe ae ops _ _ => xbranches o fe ae (init 1) ops
   | KDefault _ r _ => ["d:unary:" ++ shape_class r]
   | KDefaultStream _ ok r _ => ["d:stream:" ++ (if ok then shape_class r else "recv-failed")]
@@ -182,6 +218,9 @@ Definition all_classes : list string :=
   +++ map (fun k => "cb:" ++ k) ["get:read-hit"; "get:read-miss"; "get:factory"; "get:notfound";
                                  "get:insert"; "get:insert-taken"; "add:new"; "add:replace"; "remove:present"; "remove:absent";
                                  "callback:auto"; "callback:add"; "callback:remove"; "order:commit-order"; "order:inverted"]
+  +++ map (fun k => "cw:" ++ k) ["get:read-hit"; "get:read-miss"; "get:fallback"; "get:insert"; "get:insert-taken"; "callback:auto";
+                                 "get:fallback=nil,nil,factory=client,err:notfound"; "get:fallback=nil,nil,factory=nil,err:notfound-beside-committed";
+                                 "get:fallback=nil,nil,factory=client,nil"; "get:no-fallback,factory=client,nil"; "get:fallback=nil,err,no-factory:notfound"]
   +++ flat_map (fun c => map (fun k => "h:stream:" ++ c ++ ":" ++ k)
                  ["open-error"; "header-error"; "sendheader-error"; "send-error"; "child-status+trailer"; "child-status"; "eof+trailer"; "eof"])
        ["registered"]
